@@ -17,14 +17,18 @@
 (* binary row back; the property is Decode(BinaryRow(cols)) = the values.                   *)
 EXTENDS Wire, Wire_rowtab, TLC, Json
 
-CONSTANTS Modes,       \* subset of {"single", "mixed", "bitmap", "bitmap3"}: which families of rows are built
+CONSTANTS Modes,       \* subset of {"single", "mixed", "bitmap", "bitmap3", "sets"}: which families of rows are built
           MaxMixed,    \* columns of a "mixed" row (one representative value per type family)
           MaxBitmap,   \* columns of a "bitmap" row (TINY 7 / NULL in every position)
           MaxBitmap3,  \* columns of a "bitmap3" row (TINY 7 / NULL / VAR_STRING 'ab')
+          MaxSetCols,  \* "sets": result sets of several rows over the same columns (TINY, VAR_STRING alternating,
+          MaxSetRows,  \*         each value or NULL): columns per row, rows per set
           EmitCases
 
-VARIABLES mode, cols
-vars == <<mode, cols>>
+VARIABLES mode,
+          cols,        \* the row being built
+          rows         \* "sets" only: the rows of the result set completed so far (all over the same columns)
+vars == <<mode, cols, rows>>
 
 -----------------------------------------------------------------------------------
 (* type codes *)
@@ -223,11 +227,25 @@ BitmapColumns == {Tiny7, Col(TTiny, FALSE, NullV)} \cup (IF mode = "bitmap3" THE
 Choices == IF mode = "single" THEN AllColumns ELSE IF mode = "mixed" THEN MixedColumns ELSE BitmapColumns
 Limit == IF mode = "single" THEN 1 ELSE IF mode = "mixed" THEN MaxMixed ELSE IF mode = "bitmap" THEN MaxBitmap ELSE MaxBitmap3
 
-Init == mode \in Modes /\ cols = <<>>
-AddColumn == /\ Len(cols) < Limit
+(* result sets: column j is TINY for odd j and VAR_STRING for even j; every row picks value or NULL per column *)
+SetColumn(j) == IF j % 2 = 1 THEN {Tiny7, Col(TTiny, FALSE, NullV)}
+                ELSE {Col(TVarString, FALSE, Str(<<97, 98>>)), Col(TVarString, FALSE, NullV)}
+
+Init == mode \in Modes /\ cols = <<>> /\ rows = <<>>
+AddColumn == /\ mode # "sets"
+             /\ Len(cols) < Limit
              /\ \E c \in Choices : cols' = Append(cols, c)
-             /\ UNCHANGED mode
-Next == AddColumn
+             /\ UNCHANGED <<mode, rows>>
+AddSetColumn == /\ mode = "sets"
+                /\ Len(cols) < (IF rows = <<>> THEN MaxSetCols ELSE Len(rows[1]))
+                /\ \E c \in SetColumn(Len(cols) + 1) : cols' = Append(cols, c)
+                /\ UNCHANGED <<mode, rows>>
+(* the row is complete: the next row of the same result set starts *)
+CloseRow == /\ mode = "sets" /\ Len(cols) >= 1 /\ Len(rows) < MaxSetRows
+            /\ IF rows = <<>> THEN TRUE ELSE Len(cols) = Len(rows[1])
+            /\ rows' = Append(rows, cols) /\ cols' = <<>>
+            /\ UNCHANGED mode
+Next == AddColumn \/ AddSetColumn \/ CloseRow
 Spec == Init /\ [][Next]_vars
 
 -----------------------------------------------------------------------------------
@@ -259,7 +277,19 @@ ValOut(j) == LET c == Canon[j] IN
              ELSE IF c.k = "date" THEN [k |-> "date", n |-> <<c.y, c.m, c.d>>]
              ELSE IF c.k = "dt" THEN [k |-> "dt", n |-> <<c.y, c.m, c.d, c.h, c.mi, c.s, c.us>>]
              ELSE [k |-> "time", n |-> <<IF c.neg THEN 1 ELSE 0, c.h, c.mi, c.s, c.us>>]
-Emit == (EmitCases /\ N >= 1) =>
+(* a result set is encoded row by row: row i of the binary result set is BinaryRow of row i, whatever the other rows are *)
+BinaryResultset(rs) == [i \in 1..Len(rs) |-> BinaryRow(rs[i])]
+FieldsOf(cs) == [j \in 1..Len(cs) |-> [t |-> cs[j].t, u |-> cs[j].u]]
+CanonRow(cs) == [j \in 1..Len(cs) |-> CanonOf(cs[j].t, cs[j].u, cs[j].v)]
+SetRoundTrip == \A i \in 1..Len(rows) : /\ FieldsOf(rows[i]) = FieldsOf(rows[1])
+                                        /\ Decode(FieldsOf(rows[1]), BinaryResultset(rows)[i]) = CanonRow(rows[i])
+RowOut(cs) == [vals |-> [j \in 1..Len(cs) |-> LET c == CanonRow(cs)[j] IN
+                                               IF c.k = "null" THEN [k |-> "null"]
+                                               ELSE IF c.k = "int" THEN [k |-> "int", b |-> c.b8] ELSE [k |-> "str", b |-> c.b]],
+               text |-> TextRow(cs), bin |-> BinaryRow(cs)]
+EmitSet == (EmitCases /\ mode = "sets" /\ cols = <<>> /\ Len(rows) >= 2) =>
+          PrintT(<<"CASE", ToJson([fields |-> FieldsOf(rows[1]), set |-> [i \in 1..Len(rows) |-> RowOut(rows[i])]])>>)
+Emit == (EmitCases /\ mode # "sets" /\ N >= 1) =>
           PrintT(<<"CASE", ToJson([fields |-> [j \in 1..N |-> [t |-> cols[j].t, u |-> cols[j].u]],
                                   vals |-> [j \in 1..N |-> ValOut(j)],
                                   text |-> TextRow(cols), bin |-> BinaryRow(cols)])>>)
